@@ -21,6 +21,7 @@ import SqiProofs.C20Kat
 import SqiProofs.DrbgRefine
 import SqiProofs.DrbgInc
 import SqiGen.Drbg
+import SqiProofs.AesCtMain
 
 namespace SqiProps.C20
 open SqiModel SqiModel.Sponge
@@ -267,6 +268,48 @@ example : (Drbg.Model.init (fun _ _ => List.replicate 16 7) (List.replicate 48 1
 /-- the block cipher specification meets the hypothesis `hE` on a concrete instance and reproduces FIPS 197 C.3 -/
 example : (Aes.aes256 ((List.range 32).map (·.toUInt8)) ((List.range 16).map (fun i => (17 * i).toUInt8))).length = 16 := by
   rw [SqiProofs.C20Kat.kat_aes256]; rfl
+
+/-! ## (d′) AES: the bitsliced constant-time code of aes_c.c, translated (tie T), equals FIPS 197
+   `SqiGen.Aes.*_prog` are the register programs re-extracted from br_aes_ct64_bitslice_Sbox, shift_rows, mix_columns,
+   add_round_key, br_aes_ct64_ortho, br_aes_ct64_interleave_in/out; `SqiModel.AesCt` composes them like aes_ecb4x does.
+   `unslice q blk` reads block blk out of the bitsliced registers (q[b] bit 16r+4c+blk = bit b of byte (r,c)). -/
+
+/-- the S-box defined by GF(2^8) inversion + affine map is the table of FIPS 197 Figure 7 -/
+theorem aes_sbox_is_fips_table (n : Nat) (h : n < 256) : Aes.sbox (UInt8.ofNat n) = UInt8.ofNat (Aes.sboxTable.getD n 0) :=
+  SqiProofs.AesSpec.sbox_table n h
+
+/-- the Boyar–Peralta S-box circuit of the C code is SubBytes, on every block of every bitsliced state -/
+theorem aes_sbox_circuit_eq_spec (q : List UInt64) (hq : q.length = 8) (blk : Nat) (hb : blk < 4) :
+    AesCt.unslice (AesCt.sboxQ q) blk = Aes.subBytes (AesCt.unslice q blk) :=
+  SqiProofs.AesCt.sboxQ_eq' q hq blk hb
+
+theorem aes_shift_rows_eq_spec (q : List UInt64) (hq : q.length = 8) (blk : Nat) (hb : blk < 4) :
+    AesCt.unslice (AesCt.shiftRowsQ q) blk = Aes.shiftRows (AesCt.unslice q blk) :=
+  SqiProofs.AesCt.shiftRowsQ_eq q hq blk hb
+
+theorem aes_mix_columns_eq_spec (q : List UInt64) (hq : q.length = 8) (blk : Nat) (hb : blk < 4) :
+    AesCt.unslice (AesCt.mixColumnsQ q) blk = Aes.mixColumns (AesCt.unslice q blk) :=
+  SqiProofs.AesCt.mixColumnsQ_eq q hq blk hb
+
+theorem aes_add_round_key_eq_spec (q sk : List UInt64) (hq : q.length = 8) (hsk : sk.length = 8) (blk : Nat) (hb : blk < 4) :
+    AesCt.unslice (AesCt.addRoundKeyQ q sk) blk = Aes.xorBytes (AesCt.unslice q blk) (AesCt.unslice sk blk) :=
+  SqiProofs.AesCt.addRoundKeyQ_eq q sk hq hsk blk hb
+
+/-- entry sequence (interleave_in ×4, ortho): the four input blocks appear in the bitsliced layout -/
+theorem aes_slice_in_eq_spec (w : List UInt64) (hw : w.length = 16) (blk : Nat) (hb : blk < 4) :
+    AesCt.unslice (AesCt.sliceIn w) blk = ((w.drop (4 * blk)).take 4).flatMap AesCt.enc32le :=
+  SqiProofs.AesCt.sliceIn_eq w hw blk hb
+
+/-- `aes_ecb4x` (entry sequence, AddRoundKey, nr−1 full rounds, final round, exit sequence) = FIPS 197 Cipher on each of the
+    four blocks — for every input, every nr, and every expanded key `skExp` whose round-r words are the bitsliced round key r
+    in all four lanes.  (That br_aes_ct64_keysched + br_aes_ct64_skey_expand produce such an `skExp` is the part of AES that
+    remains correspondence-only: checked on every run for a set of keys by the op `aesct.keys`.) -/
+theorem aes_ecb4x_eq_spec (w : List UInt64) (hw : w.length = 16) (skExp : List UInt64) (wk : List (List UInt8)) (nr : Nat)
+    (hlen : 8 * (nr + 1) ≤ skExp.length)
+    (hkeys : ∀ r, r ≤ nr → ∀ blk, blk < 4 → AesCt.unslice ((skExp.drop (8 * r)).take 8) blk = Aes.roundKey wk r) :
+    AesCt.ecb4x w skExp nr =
+      (List.range 4).flatMap fun blk => Aes.cipherWith wk nr (((w.drop (4 * blk)).take 4).flatMap AesCt.enc32le) :=
+  SqiProofs.AesCt.ecb4x_eq w hw skExp wk nr hlen hkeys
 
 /-! ## (e) secure clear (model; that the store is not elided is a run-time observation) -/
 open SqiModel.Challenge in
